@@ -86,6 +86,12 @@ class Gef:
                 if tgt is not None and tgt.path in prog.accessors:
                     r = 'node(%s)' % self.term(v.args[1], depth + 1, visiting)
                 else:
+                    inl = self.pure_term(tgt, v, depth, visiting) if (self.inline and tgt is not None) else None
+                    if inl is not None:
+                        r = inl
+                        if not visiting:
+                            self.memo[v.id] = r
+                        return r
                     full = self.name((tgt.name if tgt is not None else nm))
                     args = [self.term(a, depth + 1, visiting) for a in v.args]
                     perm = getattr(prog, '_arg_perm', {}).get(tgt.path) if tgt is not None else None
@@ -187,6 +193,42 @@ class Gef:
                 a, b2 = b2, a
             return ('Eq(%s,%s)' % (a, b2), not truth)
         return (self.term(d), truth)
+
+    def is_loop_exit(self, s, succ, block):
+        """s -> succ leaves a loop through that loop's only exit, and `block` lies outside the loop"""
+        loops = self.b.cfg.loops()
+        for h, body in loops.items():
+            if s in body and succ not in body and block not in body:
+                exits = [(x, y) for x in body for y in self.b.cfg.succ[x] if y not in body and y in self.b.cfg.can_return]
+                if len(exits) == 1:
+                    return True
+        return False
+
+    def pure_term(self, tgt, call, depth, visiting):
+        """the value of a call to a private, effect-free helper that returns one expression of its arguments on every
+        path (a walk down one link kind, a field read): that expression with the arguments substituted; else None"""
+        if tgt.is_closure or tgt.path in self.prog.accessors or tgt.path in self.stack or len(self.stack) >= 3 or tgt.path == self.fn.path:
+            return None
+        if tgt.body.locals[0]['ty'] in ('bool', '()', '!'):
+            return None
+        if tgt.self_adt not in self.prog.tree_adts or tgt.trait_item:
+            return None     # only the trees' own private helpers (constructors of payloads differ between the copies by design)
+        key = ('pureterm', tgt.path, self.mirror)
+        cache = self.prog._summ_cache
+        if key not in cache:
+            from rules.live import mutates
+            val = None
+            if not mutates(self.prog, tgt) and not has_callbacks(self.prog, tgt):
+                sub = Gef(self.prog, tgt, self.mirror, inline=True, stack=self.stack | {self.fn.path}).effects()
+                texts = {text for (_, kind, text) in sub if kind == 'ret'}
+                if sub and all(kind == 'ret' for (_, kind, _) in sub) and len(texts) == 1:
+                    val = texts.pop()
+            cache[key] = val
+        tmpl = cache[key]
+        if tmpl is None:
+            return None
+        argt = {'<P%d>' % (i + 1): self.term(a, depth + 1, visiting) for i, a in enumerate(call.args)}
+        return subst(tmpl, argt)
 
     def bool_merge(self, d, truth, depth=0):
         """a branch on a bool that was merged from a short-circuit (`let c = a && b; if c`): when only one incoming value
@@ -304,6 +346,8 @@ class Gef:
             for succ in cfg.succ[s]:
                 if cfg.pred[succ] != [s] or not cfg.dominates(succ, block):
                     continue
+                if self.inline and self.is_loop_exit(s, succ, block):
+                    continue        # "the loop has ended" is implied by being after it; a helper call in its place shows no such test
                 tr = edge_truth(t, succ)
                 if tr is not None:
                     pb = self.bool_merge(d, tr)
